@@ -49,6 +49,9 @@ P_RoundTrip ==
        /\ ~BackfillActive(k) => ~BackfillActive(p)
        /\ RFmt(p) = RFmt(k)
        /\ RJrt(k) = p                      \* JSON form denotes the same token as the plain form
+(* a resume position never lies beyond the entry's own sequence (resuming from it would skip entries), and
+   a token without a low sequence resumes exactly after itself *)
+P_SafeBound == RSafe(k) <= k.s /\ (k.l = 0 => RSafe(k) = k.s)
 (* order used for merging agrees between a token and what the client gets back for it *)
 P_NormOrder == RParsedOK(k) => \A b \in REm : RB(RParsed(k), b) = RB(RParsed(k), RParsed(b))
 
